@@ -160,7 +160,7 @@ package corerad
 //@   at call Delay(sg, dl, fn) when !addrIsMulticast(ip): assert U2 [C07]: 0 <= dl && dl < ms(500)
 //@   at call Delay(sg, dl, fn) when addrIsMulticast(ip): assert R1 [C06]: ghost.now + dl >= ghost.lastFire + a.minDelayBetweenRAs ; assert R2 [C06]: ghost.now + dl <= ghost.trigger + a.minDelayBetweenRAs && ghost.now + dl >= ghost.trigger ; ghost.lastFire = ghost.now + dl
 //@   opt safety [C06]
-//@   opt stablecapture [C06]
+//@   opt stablecapture [C06,C07]
 
 // ---------------------------------------------------------------------------
 // listener.go: Listen (C09 delivery, C10 tear-down discipline, C18 zone)
@@ -353,15 +353,29 @@ package corerad
 // witnessed by a pair of matching prefixes whose preferred/valid lifetimes
 // really differ, labelled with that prefix. (That every differing pair is
 // reported is not proved deductively; see the bounded stand-in in /verif.)
+// Completeness of the pairwise comparison is proved with explicit witnesses:
+// ghost.wit[f][i][j] is the index in ps at which the report for field f of the
+// pair (piA[i], piB[j]) was pushed.
+//@ macro prefDiff(x, y) = piMatch(x, y) && x.PreferredLifetime != y.PreferredLifetime
+//@ macro validDiff(x, y) = piMatch(x, y) && x.ValidLifetime != y.ValidLifetime
+//@ macro witOK(ps, w, f, i, j, d) = 0 <= wit3Get(w, f, i, j) && wit3Get(w, f, i, j) < len(ps) && ps[wit3Get(w, f, i, j)].Field == f && ps[wit3Get(w, f, i, j)].Details == d
+//@ macro piWit(w, ps, x, y, i, j) = (prefDiff(x, y) ==> witOK(ps, w, "prefix_information_preferred_lifetime", i, j, cidrStrOf(x.Prefix, x.PrefixLength))) && (validDiff(x, y) ==> witOK(ps, w, "prefix_information_valid_lifetime", i, j, cidrStrOf(x.Prefix, x.PrefixLength)))
 //@ func checkPrefixes
+//@   ghost local wit (Array Int (Array Int (Array Int Int)))
 //@   requires P1: optsOK(want) && optsOK(got)
 //@   assigns new heap(corerad.problems), new mem(corerad.problem), new mem(*ndp.PrefixInformation)
+//@   at call push(pp, pfield, pdetails, pw, pg): ghost.wit = wit3Set(ghost.wit, pfield, rangeindex1 + 1, rangeindex2 + 1, len(star(pp)) - 1)
+//@   loop 1 invariant Q2 [C12]: forall(i, 0, rangeindex1 + 1, forall(j, 0, len(piB), piWit(ghost.wit, ps, piA[i], piB[j], i, j)))
+//@   loop 2 invariant Q6 [C12]: forall(i, 0, rangeindex1 + 1, forall(j, 0, len(piB), piWit(ghost.wit, ps, piA[i], piB[j], i, j)))
+//@   loop 2 invariant Q4 [C12]: forall(j, 0, rangeindex2 + 1, piWit(ghost.wit, ps, a, piB[j], rangeindex1 + 1, j))
 //@   loop 1 invariant Q0 [C12]: 0 <= rangeindex1 + 1 && rangeindex1 + 1 <= len(piA) && forall(i, 0, len(piA), piA[i] != nil) && forall(j, 0, len(piB), piB[j] != nil)
 //@   loop 1 invariant Q1 [C12]: forall(k, 0, len(ps), exists(i, 0, len(piA), exists(j, 0, len(piB), piMatch(piA[i], piB[j]) && piProblem(ps[k], piA[i], piB[j]) && ps[k].Details == cidrStrOf(piA[i].Prefix, piA[i].PrefixLength))))
 //@   loop 2 invariant Q3 [C12]: 0 <= rangeindex2 + 1 && rangeindex2 + 1 <= len(piB) && rangeindex1 + 1 < len(piA) && a == piA[rangeindex1 + 1]
 //@   loop 2 invariant Q5 [C12]: forall(k, 0, len(ps), exists(i, 0, len(piA), exists(j, 0, len(piB), piMatch(piA[i], piB[j]) && piProblem(ps[k], piA[i], piB[j]) && ps[k].Details == cidrStrOf(piA[i].Prefix, piA[i].PrefixLength))))
 //@   ensures E1 [C12]: countTag(arr(want), len(want), tagOf("*ndp.PrefixInformation")) == 0 || countTag(arr(got), len(got), tagOf("*ndp.PrefixInformation")) == 0 ==> len(result) == 0
 //@   ensures E2 [C12]: forall(k, 0, len(result), exists(i, 0, len(want), exists(j, 0, len(got), isType(want[i], "*ndp.PrefixInformation") && isType(got[j], "*ndp.PrefixInformation") && piMatch(as(want[i], "*ndp.PrefixInformation"), as(got[j], "*ndp.PrefixInformation")) && piProblem(result[k], as(want[i], "*ndp.PrefixInformation"), as(got[j], "*ndp.PrefixInformation")) && result[k].Details == cidrStrOf(as(want[i], "*ndp.PrefixInformation").Prefix, as(want[i], "*ndp.PrefixInformation").PrefixLength))))
+//@   ensures E3 [C12]: len(piA) > 0 && len(piB) > 0 ==> forall(i, 0, len(piA), forall(j, 0, len(piB), (prefDiff(piA[i], piB[j]) ==> hasProblem(result, "prefix_information_preferred_lifetime", cidrStrOf(piA[i].Prefix, piA[i].PrefixLength))) && (validDiff(piA[i], piB[j]) ==> hasProblem(result, "prefix_information_valid_lifetime", cidrStrOf(piA[i].Prefix, piA[i].PrefixLength)))))
+//@   ensures E4 [C12]: forall(i, 0, len(want), forall(j, 0, len(got), isType(want[i], "*ndp.PrefixInformation") && isType(got[j], "*ndp.PrefixInformation") ==> (prefDiff(as(want[i], "*ndp.PrefixInformation"), as(got[j], "*ndp.PrefixInformation")) ==> hasProblem(result, "prefix_information_preferred_lifetime", cidrStrOf(as(want[i], "*ndp.PrefixInformation").Prefix, as(want[i], "*ndp.PrefixInformation").PrefixLength))) && (validDiff(as(want[i], "*ndp.PrefixInformation"), as(got[j], "*ndp.PrefixInformation")) ==> hasProblem(result, "prefix_information_valid_lifetime", cidrStrOf(as(want[i], "*ndp.PrefixInformation").Prefix, as(want[i], "*ndp.PrefixInformation").PrefixLength)))))
 //@   opt safety [C12]
 //@   opt frame [C12]
 
